@@ -47,11 +47,12 @@ Open Scope N_scope.
 
 Record obs : Type := mkObs {
   ob_evts : list (N * event);              (* (channel, event); per (channel, instance) in emission order *)
-  ob_qs : list (list bytes * N) }.         (* questions as (labels, qtype) *)
+  ob_qs : list (list bytes * N) }.         (* questions as (labels in lower case, qtype): DNS names
+                                              are compared without regard to ASCII case *)
 
 Definition obs_of (o : list out) : obs :=
   mkObs (flat_map (fun x => match x with OEvt c e => [(c, e)] | _ => [] end) o)
-        (map (fun q => (name_labels (fst q), snd q)) (questions_of o)).
+        (map (fun q => (map lower (name_labels (fst q)), snd q)) (questions_of o)).
 
 (* ---- the spec cache ------------------------------------------------------------------------------ *)
 
@@ -373,20 +374,20 @@ Definition step04 (ifs : iftab) (k : N) (t : t04) (it : iter) (wake : option N) 
   let now := i_now it in
   let '(_, sp2, sp3) := iter_snaps ifs (t4_sp t) it in
   let cur := iter_dlvs ifs it in
-  let targets := t4_targets t ++ flat_map (fun d => ptr_targets_of (d_data d)) (i_dgrams it) in
+  let targets := t4_targets t ++ map (map lower) (flat_map (fun d => ptr_targets_of (d_data d)) (i_dgrams it)) in
   (* Q1: follow-up tries that are due: the expected question must be asked; tries 1 and 2 are
      followed by another try 500 ms later, the chain ends when nothing is missing *)
   let due := filter (fun o => fst (snd o) <=? now) (t4_oblig t) in
   let notdue := filter (fun o => negb (fst (snd o) <=? now)) (t4_oblig t) in
   let fsQ1 := flat_map (fun o =>
                 match expected_followup (sp_c sp2) (fst o) with
-                | Some q => if q_mem (name_labels (fst q), snd q) (ob_qs ob) then []
+                | Some q => if q_mem (map lower (name_labels (fst q)), snd q) (ob_qs ob) then []
                             else [F04_followup k (fst o) (fst (snd (snd o)))]
                 | None => []
                 end) due in
   let chained := flat_map (fun o =>
                    match expected_followup (sp_c sp2) (fst o) with
-                   | Some q => if q_mem (name_labels (fst q), snd q) (ob_qs ob) && (snd (snd (snd o)) <? 3)
+                   | Some q => if q_mem (map lower (name_labels (fst q)), snd q) (ob_qs ob) && (snd (snd (snd o)) <? 3)
                                then [(fst o, (now + 500, (fst (snd (snd o)), snd (snd (snd o)) + 1)))]
                                else []
                    | None => []
@@ -434,7 +435,7 @@ Definition step04 (ifs : iftab) (k : N) (t : t04) (it : iter) (wake : option N) 
   let insts := dedup (map snd (t4_found t) ++ newfound) in
   let '(any2, fsQ2) :=
     fold_left (fun (acc : list (bytes * N) * list fail) inst =>
-                 if labels_mem (name_labels inst) asked then
+                 if labels_mem (map lower (name_labels inst)) asked then
                    let n := any_get inst (fst acc) + 1 in
                    (any_set inst n (fst acc), if 3 <? n then snd acc ++ [F04_many k inst] else snd acc)
                  else acc) insts (any1, []) in
